@@ -2,6 +2,7 @@ import CM.Driver.Json
 import CM.Model.Exit
 import CM.Driver.OpsRS
 import CM.Driver.OpsReg
+import CM.Driver.OpsSel
 open Lean
 namespace CM.Driver
 
@@ -46,6 +47,14 @@ def dispatch (j : Json) : Except String Json := do
   | "match_codemods" => opMatchCodemods j
   | "csv_list" => opCsvList j
   | "id_glob" => opGlob j
+  | "fnmatch" => opFnmatch j
+  | "match_files" => opMatchFiles j
+  | "context_paths" => opContextPaths j
+  | "file_line_patterns" => opFileLinePatterns j
+  | "match_location" => opMatchLocation j
+  | "line_filter" => opLineFilter j
+  | "selected" => opSelected j
+  | "findings_for_line" => opFindingsForLine j
   | _ => .error s!"bad-op: unknown op {op}"
 
 end CM.Driver
